@@ -39,25 +39,25 @@ type World struct {
 	SimTime  time.Duration // simulated time of finished bubbles
 	Gen      int           // incarnation number
 
-	Viol      []Violation
+	Viol         []Violation
 	TroubleSteps []int
 	quiet        bool // unwinding a stopped incarnation: events are not recorded
 	rootG        uint64
 	stepAcc      uint64
 	stepText     []string
-	Faults    map[string]int
-	Probes    map[string]int
-	Inconcl   string // non-empty: run could not decide (cap hit in fault phase ...)
-	hash      uint64
-	Verbose   bool
-	Text      []string // event log, only when Verbose
-	actSeq    uint64   // hash of (goroutine name, action kind) decisions only
-	States    map[uint64]struct{}
-	AllConns  []*Conn
-	FaultsOff bool // quiescence phase: no more faults
-	StopParam int  // stop the process at this storage-operation boundary (2i: before op i, 2i+1: after op i; -1 none)
-	StopBase  int  // index of the first storage operation StopParam counts from
-	Budget    int  // remaining fault budget
+	Faults       map[string]int
+	Probes       map[string]int
+	Inconcl      string // non-empty: run could not decide (cap hit in fault phase ...)
+	hash         uint64
+	Verbose      bool
+	Text         []string // event log, only when Verbose
+	actSeq       uint64   // hash of (goroutine name, action kind) decisions only
+	States       map[uint64]struct{}
+	AllConns     []*Conn
+	FaultsOff    bool // quiescence phase: no more faults
+	StopParam    int  // stop the process at this storage-operation boundary (2i: before op i, 2i+1: after op i; -1 none)
+	StopBase     int  // index of the first storage operation StopParam counts from
+	Budget       int  // remaining fault budget
 
 	Disk   *Disk
 	Broker *Broker
@@ -205,13 +205,13 @@ type Sim struct {
 	dur        time.Duration
 	ended      bool
 
-	conns    []*Conn
-	netParks map[string]int
+	conns     []*Conn
+	netParks  map[string]int
 	OnLoopEnd func() // called when the scheduler loop has ended, before the unwinding
-	Unwind   func() // called when the incarnation is turned into a zombie
-	NoYield  bool
-	tickW    int
-	TickTime time.Duration // simulated time passed in tick actions and injected stalls
+	Unwind    func() // called when the incarnation is turned into a zombie
+	NoYield   bool
+	tickW     int
+	TickTime  time.Duration // simulated time passed in tick actions and injected stalls
 }
 
 var simEpoch = time.Date(2000, 1, 1, 0, 0, 0, 0, time.UTC)
